@@ -33,6 +33,8 @@ func Run(c *hx.Ctx) {
 		canaryContinuation()
 		return
 	}
+	// hx.NewRng(seed) and hx.NewRng(seed+1) are the same splitmix stream one draw apart; scatter the seeds
+	c.Rng = hx.NewRng(scatter(c.Seed))
 	runFlowOps(c)
 	runInts(c)
 	runStrings(c)
@@ -40,6 +42,13 @@ func Run(c *hx.Ctx) {
 	runHeaderLists(c)
 	runFrameSeqs(c)
 	runPeer(c)
+}
+
+func scatter(z uint64) uint64 {
+	z += 0x632BE59BD9B4E019
+	z = (z ^ (z >> 30)) * 0xBF58476D1CE4E5B9
+	z = (z ^ (z >> 27)) * 0x94D049BB133111EB
+	return z ^ (z >> 31)
 }
 
 // fakeConn is the in-memory pipe: everything MOSN writes is appended to `out` as one record per Write call.
